@@ -116,9 +116,12 @@ class Gen(object):
             return ["reg", r.choice(self.ptrs), 32]
         if k < 0.85:
             return ["cst", 0x1000 + 4 * r.randrange(0, 6), 32]
-        # a pointer read from memory or taken from a data register; no operator here: the algebra's rewriting
-        # (`x | 0 -> x`, operand ordering) would change the identity of the zone, which is C01's business
-        return fit(r, self.leaf(32), 32)
+        # a pointer read from memory or taken from a whole data register; no operator and no slice here: the
+        # algebra's rewriting (`x | 0 -> x`, operand ordering, slices pushed into operators) would change the
+        # identity of the zone, which is C01's business
+        if r.random() < 0.5:
+            return ["load", self.addr(), 32]
+        return ["reg", r.choice(DATA32), 32]
 
     # -- statements ---------------------------------------------------------------------------------
     def stmt(self):
